@@ -2,6 +2,7 @@
 //! swarm drivers, with the harness as scheduler, transport and payment contract.
 mod c03;
 mod c04;
+mod c07;
 mod payments;
 mod sim;
 
@@ -10,6 +11,7 @@ fn main() {
     match cfg.prop.as_str() {
         "C03" => c03::run(cfg),
         "C04" => c04::run(cfg),
+        "C07" => c07::run(cfg),
         other => {
             eprintln!("vh-node: unknown property {other}");
             std::process::exit(2);
